@@ -4,7 +4,7 @@
 //   lru        cache.BoundedCache vs the pointer-level Lean model (SSV.Model.Lru) vs a reference map
 //   dnslookup  dns.Resolver with a scripted TCP upstream over netio.NewPipe under testing/synctest
 //              (fake clock) vs SSV.Model.Dns vs the statement oracle (oracle.go)
-//   dnsudp     the UDP path on loopback in real time (wrong source, silence, truncation fallback)
+//   (the UDP receive loop is modelled and proved about in Lean, but has no correspondence engine yet: udp.go is a stub)
 package main
 
 import (
@@ -159,26 +159,16 @@ func run(t *testing.T, o *common.Options, rep *common.Report) error {
 			return err
 		}
 	}
-	// ---- dnsudp (real time) ----
-	n = o.Budget(12, 300)
-	if o.Search {
-		n = 40
-	}
-	for i := 0; i < n; i++ {
-		if err := evalUDPCase(genUDPCase(r.Fork(2<<32+uint64(i))), o, rep, drv); err != nil {
-			return err
-		}
-	}
+	rep.Note("UDP path (sendQueriesUDP: source filter, truncation fallback, silence) is not exercised by a correspondence engine; only the Lean model/theorems and Gen facts cover it")
 	return nil
 }
 
 func main() {
 	o := common.ParseFlags()
 	rep := common.NewReport("C17", o)
-	rep.Engines = []string{"lru", "dnslookup", "dnsudp"}
+	rep.Engines = []string{"lru", "dnslookup"}
 	rep.Rule = "lru: op sequences (get/set/insert/remove/contains/len/all/backward, <= 43 ops) over key sets just above the capacity, capacities {1,2,3,4,5,8,unbounded}; non-trivial = at least one hit and one miss. " +
-		"dnslookup: histories of 3..10 lookups over 1..4 names, cache capacity 1..4 (sometimes unbounded), scripted TCP upstream per lookup (valid / NXDOMAIN+SOA / NODATA / SERVFAIL.. / truncated / wrong id / not-a-response / RA=0 / unknown rcode / garbage / cut messages / bad record bodies / zero length / close mid-message / hang / dial failure), lookup instants placed +-1 ns around the TTL instants of the cached entry under a fake clock; non-trivial = at least one upstream success and one cache hit or failure; distinct by full observable history. " +
-		"dnsudp: real-time loopback runs (wrong source, silence, truncated, garbage, then TCP fallback)."
+		"dnslookup: histories of 3..10 lookups over 1..4 names, cache capacity 1..4 (sometimes unbounded), scripted TCP upstream per lookup (valid / NXDOMAIN+SOA / NODATA / SERVFAIL.. / truncated / wrong id / not-a-response / RA=0 / unknown rcode / garbage / cut messages / bad record bodies / zero length / close mid-message / hang / dial failure), lookup instants placed +-1 ns around the TTL instants of the cached entry under a fake clock; non-trivial = at least one upstream success and one cache hit or failure; distinct by full observable history. "
 	exit := 0
 	testing.Main(func(pat, str string) (bool, error) { return true, nil }, []testing.InternalTest{{Name: "corr_c17", F: func(t *testing.T) {
 		err := run(t, o, rep)
